@@ -167,6 +167,12 @@ def order(ctx):
         ctx.ob(rid, ok, f.where, "the stale trigger is cleared before the activation becomes visible",
                "" if ok else "activated is raised before triggered is cleared: a waiter that sees the new "
                "activation can return on the previous cycle's trigger", fn=f.label, inst=f.qname)
+        # a failed (redundant) activate() must leave the cycle alone: whoever clears `triggered` goes on to activate
+        for c in clear:
+            skip = bool(raise_) and f.exits_avoiding(f.pos_of(c["st"]), [tuple(f.pos_of(r["st"])) for r in raise_ if f.pos_of(r["st"])])
+            ctx.ob(rid, not skip, f.loc(c["st"]), "activate() clears triggered only on the way to raising activated",
+                   "" if not skip else "a path clears triggered and returns without activating (the 'already active' answer): "
+                   "a trigger that already happened in the running cycle is wiped and its waiters block", fn=f.label, inst=f.qname)
     for f in fb.functions(rec=CLS, name="reset"):
         la = eng.locks(f)
         calls = [st for st in f.stmts.values() if st["k"] == "CXXMemberCallExpr" and st["callee"]["name"] == "trigger"]
